@@ -54,6 +54,8 @@ type facts struct {
 	factoryCtors     map[string][]string // factory closure of newTreeSimple -> the constructors it calls
 	simpleMethods    map[string][]string // type …Simple -> the methods declared on it
 	genSkeleton      map[string][]string // generator loop -> its tests, calls, continues and returns in source order
+	entryTree        map[string][]string // exported entry point -> "<tree initializer>.<operation>" of every call it makes on a fresh tree
+	initTree         map[string][]string // initializeTree -> its tests, returns and constructor calls in source order
 	treeFields       map[string][]string // field of the treeSimple literal -> the factory called and its arguments
 }
 
@@ -61,7 +63,7 @@ func main() {
 	repo := flag.String("repo", "/repo", "repository root")
 	out := flag.String("out", "", "output Lean file")
 	flag.Parse()
-	f := &facts{consts: map[string]string{}, errChanCap: map[string]int{}, pkgVarWrites: map[string][]string{}, tagged: map[string]string{}, exitCodes: map[string]int{}, aliasPairs: map[string]bool{}, entryConfig: map[string]string{}, pipeEmbeds: map[string][]string{}, pipeMethods: map[string][]string{}, workerCalls: map[string][]string{}, treeCalls: map[string][]string{}, ctorReturns: map[string][]string{}, factoryCtors: map[string][]string{}, treeFields: map[string][]string{}, simpleMethods: map[string][]string{}, genSkeleton: map[string][]string{}}
+	f := &facts{consts: map[string]string{}, errChanCap: map[string]int{}, pkgVarWrites: map[string][]string{}, tagged: map[string]string{}, exitCodes: map[string]int{}, aliasPairs: map[string]bool{}, entryConfig: map[string]string{}, pipeEmbeds: map[string][]string{}, pipeMethods: map[string][]string{}, workerCalls: map[string][]string{}, treeCalls: map[string][]string{}, ctorReturns: map[string][]string{}, factoryCtors: map[string][]string{}, treeFields: map[string][]string{}, simpleMethods: map[string][]string{}, genSkeleton: map[string][]string{}, entryTree: map[string][]string{}, initTree: map[string][]string{}}
 	fset := token.NewFileSet()
 	for _, dir := range []string{*repo, filepath.Join(*repo, "markdown"), filepath.Join(*repo, "cmd", "gtree")} {
 		ents, err := os.ReadDir(dir)
@@ -607,6 +609,36 @@ func (f *facts) scanFunc(fset *token.FileSet, rel string, fd *ast.FuncDecl) {
 		g := guardedSelects(fd.Body)
 		f.sendErrGuarded = len(g) > 0
 	}
+	// which tree an exported entry point builds and which operation of it it calls: `initializeTree(cfg).op(…)`
+	if fd.Recv == nil && ast.IsExported(fd.Name.Name) && (rel == "tree_handler.go" || rel == "tree_handler_programmably.go") {
+		ast.Inspect(fd.Body, func(n ast.Node) bool {
+			if ce, ok := n.(*ast.CallExpr); ok {
+				if se, ok := ce.Fun.(*ast.SelectorExpr); ok {
+					if in, ok := se.X.(*ast.CallExpr); ok {
+						if idt, ok := in.Fun.(*ast.Ident); ok {
+							f.entryTree[fd.Name.Name] = append(f.entryTree[fd.Name.Name], idt.Name+"."+se.Sel.Name)
+						}
+					}
+				}
+			}
+			return true
+		})
+	}
+	if fd.Recv == nil && fd.Name.Name == "initializeTree" && rel == "tree.go" {
+		ast.Inspect(fd.Body, func(n ast.Node) bool {
+			switch x := n.(type) {
+			case *ast.IfStmt:
+				f.initTree["initializeTree"] = append(f.initTree["initializeTree"], "if:"+srcStr(x.Cond))
+			case *ast.ReturnStmt:
+				f.initTree["initializeTree"] = append(f.initTree["initializeTree"], "return")
+			case *ast.CallExpr:
+				f.initTree["initializeTree"] = append(f.initTree["initializeTree"], "call:"+srcStr(x.Fun))
+			case *ast.AssignStmt:
+				f.initTree["initializeTree"] = append(f.initTree["initializeTree"], "assign:"+srcStr(x))
+			}
+			return true
+		})
+	}
 	// which configuration constructor an exported entry point calls
 	if fd.Recv == nil && ast.IsExported(fd.Name.Name) && (rel == "tree_handler.go" || rel == "tree_handler_programmably.go") {
 		seen := map[string]bool{}
@@ -766,6 +798,8 @@ func (f *facts) render() string {
 	}
 	w("/-- operation of *treeSimple ↦ the calls `t.<part>.<method>` it makes, in source order -/\ndef treeSimpleCalls : List (String × List String) := %s\n", ordMap(f.treeCalls))
 	w("/-- constructor of a part of the simple tree ↦ the struct types of the composite literals it returns (→f: it delegates to constructor f) -/\ndef ctorReturns : List (String × List String) := %s\n", ordMap(f.ctorReturns))
+	w("/-- exported entry point ↦ `<initializer>.<operation>` of every call it makes on a freshly built tree -/\ndef entryTree : List (String × List String) := %s\n", ordMap(f.entryTree))
+	w("/-- tree.go's initializeTree ↦ its tests, returns, assignments and calls in source order -/\ndef initTree : List (String × List String) := %s\n", ordMap(f.initTree))
 	w("/-- row loop of a root generator ↦ its tests, calls, continues and returns in source order -/\ndef genSkeleton : List (String × List String) := %s\n", ordMap(f.genSkeleton))
 	w("/-- simple-mode type ↦ the methods declared on it -/\ndef simpleMethods : List (String × List String) := %s\n", strMap(f.simpleMethods))
 	w("/-- field of the treeSimple literal built by newTreeSimple ↦ the factory it calls, then the arguments -/\ndef treeSimpleFields : List (String × List String) := %s\n", ordMap(f.treeFields))
